@@ -48,6 +48,12 @@ CONVERSATIONS = {
     'status': dict(kind='status', login=None, play=()),
     'negotiate': dict(kind='connect', versions=(757, 47), login=[('success',)],
                       play=[('keepalive', 7)]),
+    # the default version lies outside the allowed set, and EVERY status
+    # query is cut at the same offset (a server that never answers status):
+    # the documented fallback is one login with the default version
+    'negotiate-outside': dict(kind='connect', versions=(757, 340),
+                              initial=47, all_status=True,
+                              login=[('success',)], play=[('keepalive', 7)]),
     'compress': dict(kind='connect1', login=[('compress', 64), ('success',)],
                      play=PLAY[:4]),
     'encrypt': dict(kind='connect1',
@@ -66,17 +72,45 @@ def body(W, name, cut, bytewise):
 
     def per_conn(i):
         d = {}
-        if cut is not None and cut[0] == i:
+        if cut is not None and cut[0] == i and not cv.get('all_status'):
             d['limit'] = cut[1]
         return d
-    W.serve(status={'json': status_json(protocol=V, name='1.18.1')},
-            login=cv['login'], play_script=cv['play'],
-            rsa=harness.rsa_key(), per_conn=per_conn)
+    if cv.get('all_status') and cut is not None:
+        from vf.refserver import RefServer
+        from vf import protoids
+
+        class CutStatus(RefServer):
+            def _handle(self, pid, payload):
+                first = self.handshake is None
+                RefServer._handle(self, pid, payload)
+                if first and self.handshake is not None and \
+                        self.handshake['next'] == 1:
+                    self.conn.limit = cut[1]
+                    if cut[1] == 0:
+                        self.conn.cut_done = True
+                        self.close()
+
+        def factory(conn):
+            if len(W.net.conns) > 12:
+                # a reconnect loop: stop feeding it; judged by the number
+                # of TCP connections
+                raise ConnectionRefusedError(111, 'Connection refused')
+            srv = CutStatus(conn, protoids.ids, W.rank,
+                            status={'json': status_json(protocol=V,
+                                                        name='1.18.1')},
+                            login=cv['login'], play_script=cv['play'])
+            W.servers.append(srv)
+            return srv
+        W.net.listen('srv', 25565, factory)
+    else:
+        W.serve(status={'json': status_json(protocol=V, name='1.18.1')},
+                login=cv['login'], play_script=cv['play'],
+                rsa=harness.rsa_key(), per_conn=per_conn)
     kw = dict(handle_exception=lambda e, i: errors.append(type(e).__name__),
               handle_exit=lambda: exits.append(1))
     if cv['kind'] == 'connect':
         kw['allowed_versions'] = set(cv['versions'])
-        kw['initial_version'] = cv['versions'][1]
+        kw['initial_version'] = cv.get('initial', cv['versions'][1])
     elif cv['kind'] == 'connect1':
         kw['allowed_versions'] = {V}
     conn = W.connection(**kw)
@@ -144,6 +178,12 @@ def judge(name, cut, bytewise, ref, x):
     if r['live']:
         out.append(('never-terminates', 'after end of stream these threads '
                     'are still alive: %s' % r['live']))
+    if r['conns'] > len(ref['streams']):
+        out.append(('reconnect-loop', 'the client opened %d TCP connections '
+                    '(the complete conversation needs %d): an unanswered '
+                    'status query must lead to ONE fallback login with the '
+                    'default version or to an error, not to another query'
+                    % (r['conns'], len(ref['streams']))))
     if max(r['reads_after_eof'] + [0]) > K_READS:
         out.append(('reads-after-eof', '%r reads after the first empty read'
                     % r['reads_after_eof']))
@@ -260,6 +300,8 @@ def run(ctx):
     for name in sorted(CONVERSATIONS):
         streams = refs[name]
         for ci, (total, ends) in enumerate(streams):
+            if CONVERSATIONS[name].get('all_status') and ci > 0:
+                continue        # only the status stream is cut here
             for k in offsets(ctx, total, ends, 1):
                 tasks.append((name, ci, k, False, None))
             for k in offsets(ctx, total, ends, 3):
